@@ -162,7 +162,9 @@ Fixpoint run01 (mode : N) (p : proto) (two : bool) (keys : list bytes) (steps : 
       let auth := if two then d2 else d1 in
       let closed_ok := negb (s_closed st && negb (match r with RQuit _ _ => true | _ => false end)) in
       let oracle :=
-        if mode =? 1 then closed_ok && oracle_reply p s now r o (s_reply st) && contents_ok now keys s' auth
+        (* C14: the connection observes exactly the replies it observes alone (the model's solo run) *)
+        if mode =? 14 then bytes_eqb (render_all p calls) (s_reply st)
+        else if mode =? 1 then closed_ok && oracle_reply p s now r o (s_reply st) && contents_ok now keys s' auth
         else if mode =? 2 then
           (* evictions are invisible: same reply as the eviction-free run (byte for byte, or both
              a correct frame permutation), and L1 never disagrees with L2 *)
@@ -182,7 +184,8 @@ Fixpoint run01 (mode : N) (p : proto) (two : bool) (keys : list bytes) (steps : 
       let corr :=
         bytes_eqb (render_all p calls) (s_reply st) &&
         Bool.eqb (s_closed st) (match cst with Closed => true | Open => false end) &&
-        stores_agree now keys l1' d1 && (if two then stores_agree now keys l2' d2 else true) in
+        (* mode 14: many connections share the backends, only this connection's replies are compared *)
+        ((mode =? 14) || (stores_agree now keys l1' d1 && (if two then stores_agree now keys l2' d2 else true))) in
       if negb oracle then (if corr then 3 else 2)
       else if negb corr then 1
       else run01 mode p two keys rest l1' l2' s'
